@@ -65,6 +65,15 @@ func svPreEvidence(pre *svEvPre, kind, actor int) func(e *svEnv) {
 			pre.active = append(pre.active, act)
 			pre.frozen = append(pre.frozen, fr)
 		}
+		// a bystander: an open request against somebody else with one recorded vote
+		{
+			arX := evidence.NewAllegationRequest("reqX", svAddr(9), svAddr(8), 1, "proof")
+			arX.Votes = append(arX.Votes, &evidence.AllegationVote{Address: svAddr(7), Choice: evidence.NO})
+			es.SetAllegationRequest(arX)
+			atX, _ := es.GetAllegationTracker()
+			atX.Requests["reqX"] = true
+			es.SetAllegationTracker(atX)
+		}
 		pre.voted = make([]bool, e.n)
 		if kind != 2 {
 			pre.reqOpen = sv.Choice("ev.requestOpen", 2) == 0
@@ -132,7 +141,7 @@ func svFreeze(e *svEnv, i, fr int) {
 //
 // sv:bounds 2 parties, each a validator or not, with arbitrary active flag and freeze record (none, frozen for a byzantine fault, released, frozen for missed votes); an allegation request against B open or not with yes-votes recorded from any subset (quick tier: the party that does not sign is an active validator or none, frozen for a byzantine fault or not, and has not voted); release time 1 day; block time 1 s, 1 day, 1 day + 1 s or 2 days after the freeze (Tendermint block time is strictly increasing and a release is admitted only after the freeze block is committed); kind: allegation (request id open/new, any accused), vote (any int8 choice), release; actor any party (who signs); mempool-admitted regime
 // sv:outside the block-end tally (SV_C19_tally); histories; a release delivered in the very block that froze the validator
-// sv:goal an allegation succeeds only if the reporter is an active validator, the accused is not frozen and is someone else; a vote succeeds only from an active, not frozen validator that has not voted on that request, with choice yes or no, and adds exactly that one vote; a release succeeds only for a frozen validator whose release time has elapsed (missed votes: at once) and un-freezes it; a refused transaction leaves the freeze state as it was
+// sv:goal another open request (against somebody else, one recorded vote) is never changed; an allegation succeeds only if the reporter is an active validator, the accused is not frozen and is someone else; a vote succeeds only from an active, not frozen validator that has not voted on that request, with choice yes or no, and adds exactly that one vote; a release succeeds only for a frozen validator whose release time has elapsed (missed votes: at once) and un-freezes it; a refused transaction leaves the freeze state as it was
 func SV_C19_handlers() {
 	svCurrencyLimit = 1
 	pre := &svEvPre{}
@@ -149,6 +158,9 @@ func SV_C19_handlers() {
 	r := e.step(raw, signers, true)
 	ok := r.resp.Code == 0
 	es = e.app.Context.evidenceStore.WithState(e.app.Context.deliver)
+	if arX, err := es.GetAllegationRequest("reqX"); true {
+		sv.Assert(err == nil && len(arX.Votes) == 1 && arX.Votes[0].Choice == evidence.NO && arX.MaliciousAddress.Equal(svAddr(8)), "a-request-no-transaction-names-is-untouched")
+	}
 	isFrozen := func(i int) bool { return pre.frozen[i] == 1 || pre.frozen[i] == 3 }
 	switch kind {
 	case 0:
